@@ -13,9 +13,8 @@
 (* "cat" (b_x, c_y), "union" / "inter" (d_s = set of expressions: this is  *)
 (* the associative-commutative-idempotent normal form that makes the set   *)
 (* of derivatives finite), "star" (b_x; c_y = 1 for the strict iteration), *)
-(* "neg" (b_x).  Markers occur only outside intersections and complements  *)
-(* (the library forbids them under complement; under intersection it       *)
-(* unifies marker 0 with any marker, which the generator avoids).          *)
+(* "neg" (b_x).  Markers never occur under complements (the library        *)
+(* forbids it); under intersection marker 0 unifies with any marker.       *)
 (*                                                                         *)
 (* The marked language of the compiled automaton equals the marked         *)
 (* language of the expression iff in every reachable state (q, r) of the   *)
@@ -78,9 +77,14 @@ D(r, x) ==       \* derivative w.r.t. the marked letter x = <<byte, marker>>
     [] r.a_op = "cat"    -> LET dl == Cat(D(r.b_x, x), r.c_y) IN
                             IF Nullable(r.b_x) THEN Union({dl, D(r.c_y, x)}) ELSE dl
     [] r.a_op = "union"  -> Union({D(e, x) : e \in r.d_s})
-    [] r.a_op = "inter"  -> Inter({D(e, x) : e \in r.d_s})
+    \* intersection unifies marker 0 with any marker: the letter <<b, m>>, m # 0, of the intersection comes from operands reading
+    \* b with marker m (at least one of them) or unmarked
+    [] r.a_op = "inter"  -> IF x[2] = 0 THEN Inter({D(e, x) : e \in r.d_s})
+                            ELSE Union({ Inter({D(e, x) : e \in T} \cup {D(e, <<x[1], 0>>) : e \in r.d_s \ T})
+                                         : T \in (SUBSET r.d_s) \ {{}} })
     [] r.a_op = "star"   -> Cat(D(r.b_x, x), Star(FALSE, r.b_x))
-    [] r.a_op = "neg"    -> Neg(D(r.b_x, x))
+    \* a complement is unmarked (the library forbids markers under it)
+    [] r.a_op = "neg"    -> IF x[2] = 0 THEN Neg(D(r.b_x, x)) ELSE Empty
 
 \* ---- input: expression and compiled automaton ----------------------------
 Case == JsonDeserialize(IOEnv.CASE)
